@@ -5,6 +5,7 @@
 //
 //   c10_imageio rt    <out.ndjson> <ncases> <stage>   round trips (stage 0 quick, 1 thorough, 2 without types wider than int)
 //   c10_imageio trunc <out.ndjson> <stage>            data file truncated at every length
+//   c10_imageio geo   <out.ndjson> 0                  exhaustive family origin zero/non-zero x standard/shifted index range per axis x containers
 //
 // Number encodings (DESIGN.md section 4):
 //   positions / voxel sizes / origins : Q  = round(mm*8) + residual in 1e-6 of that unit
@@ -276,7 +277,8 @@ static std::string own_decode(const std::string& hdrname, int p /* F exponent */
     const std::string i = "[" + std::to_string(ds) + "]";
     vh::Json dj;
     const bool has_sf = has(kv, "imagescalingfactor" + i);
-    const double sfd = has_sf ? getd(kv, "imagescalingfactor" + i, 1) : (has(kv, "quantificationunits") ? getd(kv, "quantificationunits", 1) : 1.);
+    // scale factors are single-precision numbers written in decimal: the value meant is the nearest float
+    const double sfd = (double)(float)(has_sf ? getd(kv, "imagescalingfactor" + i, 1) : (has(kv, "quantificationunits") ? getd(kv, "quantificationunits", 1) : 1.));
     const long long off = (long long)getd(kv, "dataoffsetinbytes" + i, 0);
     long long sm, se; fdecomp((float)sfd, sm, se);
     dj.str("file", hdrname.substr(hdrname.find_last_of('/') + 1)).boolean("hasSf", has_sf).num("sm", sm).num("se", se).num("S", fxs(sfd, p)).num("off", sat(off));
@@ -569,22 +571,41 @@ static void gen_exam(Case& c, vh::Rng& rng) {
   e.rot = rng.range(0, 5);
   int nf = c.kind == "dyn" ? c.nd : (c.kind == "par" ? 1 : rng.pick(std::vector<int>{ 1, 1, 1, 0 }));
   e.frames.clear();
-  double t = rng.range(0, 400) / 8.;
-  for (int f = 0; f < nf; ++f) { double d = rng.range(1, 800) / 8.; e.frames.push_back({ t, d }); t += d + rng.range(0, 16) / 8.; }
+  // special values: first frame starting exactly at 0, duration exactly 1 s, frames back to back
+  double t = rng.range(0, 2) == 0 ? 0. : rng.range(0, 400) / 8.;
+  for (int f = 0; f < nf; ++f) { double d = rng.range(0, 3) == 0 ? 1. : rng.range(1, 800) / 8.; e.frames.push_back({ t, d }); t += d + (rng.coin() ? 0. : rng.range(0, 16) / 8.); }
   e.rn = rng.range(0, 3);
   if (e.modality != ImagingModality::PT && e.modality != ImagingModality::NM && (e.rn == 1 || e.rn == 2)) e.rn = 0;
   static const double LO[] = { -1, -1, 0, 350, 425.5, 100.125 }, HI[] = { -1, 650, 650, 650, 600.25, 700 };
   int w = rng.range(0, 5);
   e.lo = LO[w]; e.hi = HI[w];
-  e.cal = rng.coin() ? -1 : rng.range(1, 3999) / 4.;
+  e.cal = rng.range(0, 2) == 0 ? -1 : (rng.range(0, 2) == 0 ? 1. : rng.range(1, 3999) / 4.);    // unset / exactly 1 / other
 }
 
+// the index range a reader produces by itself: z from 0, y and x centred
+static int standard_min(int axis, int size) { return axis == 0 ? 0 : -(size / 2); }
+
+// Every field takes each of its SPECIAL values independently with substantial probability: origin components
+// exactly 0 (the whole origin exactly zero in 1 of 4 images), the standard vs a shifted index range per axis,
+// minimum index 0 / negative / positive, voxel size exactly 1 mm, sizes 1 / even / odd.
 static void gen_geom(Case& c, vh::Rng& rng, int maxsz, bool far_origin) {
+  const bool zero_origin = rng.range(0, 3) == 0;
   for (int d = 0; d < 3; ++d) {
-    c.sz[d] = rng.range(0, 3) == 0 ? rng.range(1, maxsz) : rng.range(1, std::min(maxsz, 5));
-    c.mn[d] = rng.range(-12, 8);
-    c.vox8[d] = rng.pick(std::vector<int>{ 8, 10, 16, 17, 20, 24, 25, 33, 4, 1, 40, 52 });
-    c.org8[d] = far_origin ? rng.range(-40000, 40000) : rng.range(-800, 800);
+    const int big = rng.range(0, 3) == 0 ? maxsz : std::min(maxsz, 5);
+    switch (rng.range(0, 3)) {
+    case 0: c.sz[d] = 1; break;
+    case 1: c.sz[d] = std::min(big, 2 * rng.range(1, std::max(1, big / 2))); break;            // even
+    case 2: c.sz[d] = std::min(big, 2 * rng.range(0, std::max(0, (big - 1) / 2)) + 1); break;   // odd
+    default: c.sz[d] = rng.range(1, big);
+    }
+    switch (rng.range(0, 5)) {
+    case 0: case 1: case 2: c.mn[d] = standard_min(d, c.sz[d]); break;
+    case 3: c.mn[d] = 0; break;
+    case 4: c.mn[d] = -rng.range(1, 12); break;
+    default: c.mn[d] = rng.range(1, 8);
+    }
+    c.vox8[d] = rng.range(0, 2) == 0 ? 8 : rng.pick(std::vector<int>{ 10, 16, 17, 20, 24, 25, 33, 4, 1, 40, 52 });
+    c.org8[d] = zero_origin || rng.range(0, 2) == 0 ? 0 : (far_origin ? rng.range(-40000, 40000) : rng.range(-800, 800));
   }
 }
 
@@ -641,6 +662,33 @@ int main(int argc, char** argv) {
       emit_env();
       run_case(tr, c, rng, false);
     }
+  } else if (mode == "geo") {
+    // small EXHAUSTIVE family: {origin zero / non-zero} x {standard / shifted index range per axis} x
+    // {1 mm / other voxel size} x two size patterns (odd/even mixes) x {single, dynamic, parametric (Interfile and Multi)}
+    static const char* KINDS[5][2] = { { "single", "Interfile" }, { "dyn", "Interfile" }, { "par", "Interfile" }, { "dyn", "Multi" }, { "par", "Multi" } };
+    static const int SIZES[2][3] = { { 3, 4, 5 }, { 2, 5, 4 } };
+    static const int SHIFT[3] = { -2, 3, 1 };
+    for (int kk = 0; kk < 5; ++kk)
+      for (int org = 0; org < 2; ++org)
+        for (int mask = 0; mask < 8; ++mask)
+          for (int vx = 0; vx < 2; ++vx)
+            for (int sp = 0; sp < 2; ++sp) {
+              Case c;
+              c.id = ++id;
+              c.kind = KINDS[kk][0]; c.fmt = KINDS[kk][1];
+              c.nd = c.kind == "single" ? 1 : 2;
+              c.type = 8; c.bo = 0; c.scale_m = 0; c.scale_e = 0;     // FLOAT, little endian
+              for (int d = 0; d < 3; ++d) {
+                c.sz[d] = SIZES[sp][d];
+                c.mn[d] = standard_min(d, c.sz[d]) + ((mask >> d) & 1 ? SHIFT[d] : 0);
+                c.vox8[d] = vx ? 8 : (d == 0 ? 20 : (d == 1 ? 10 : 17));
+                c.org8[d] = org ? (d == 0 ? 12 : (d == 1 ? -35 : 100)) : 0;
+              }
+              gen_values(c, rng, "small");
+              gen_exam(c, rng);
+              emit_env();
+              run_case(tr, c, rng, false);
+            }
   } else if (mode == "trunc") {
     const int stage = atoi(argv[3]);
     // one image per on-disk type (+ containers): truncate the data file at every length
